@@ -367,6 +367,20 @@ def dump(sub, payload, timeout=900, env=None):
     return json.loads(p.stdout)
 
 
+def dump_race(sub, payload, timeout=900):
+    """harness/bin/dump built with Go's race detector (supporting evidence: a detector, not a proof).  Returns (ran, report):
+    report is the detector's text when it found a race, else ''."""
+    exe = os.path.join(HARNESS, "bin", "dump_race")
+    with Lock():
+        rc, out = sh(["go", "build", "-race", "-tags", "verif", "-o", exe, "./cmd/dump"], cwd=HARNESS, env=dict(GOENV, CGO_ENABLED="1"), timeout=900)
+    if rc != 0:
+        return False, ""
+    p = subprocess.run([exe, sub], input=json.dumps(payload), stdout=subprocess.PIPE, stderr=subprocess.PIPE, text=True, timeout=timeout,
+                       env=dict(GOENV, GORACE="halt_on_error=1"))
+    msg = p.stderr or ""
+    return True, (msg[msg.find("DATA RACE"):][:3000] if "DATA RACE" in msg else "")
+
+
 def load_known():
     p = os.path.join(VERIF, "known_findings.json")
     try:
